@@ -345,6 +345,8 @@ type recHub struct {
 	issued   map[string]bool // secret ids handed out by creds/
 	revoked  map[string]int
 	renewed  map[string]int
+	issuedBy map[string]string // secret id -> uuid of the backend instance that issued it
+	misrouted []string         // revocations that arrived at a backend instance other than the issuing one
 	failRevoke bool
 	special  map[string]*logical.Paths // by backend type name
 	nextID   int64
@@ -463,7 +465,9 @@ func (b *recBE) HandleRequest(ctx context.Context, req *logical.Request) (*logic
 		id, _ := req.Secret.InternalData["id"].(string)
 		h.mu.Lock()
 		fail := h.failRevoke
-		if !fail {
+		if by, ok := h.issuedBy[id]; ok && by != b.uuid {
+			h.misrouted = append(h.misrouted, fmt.Sprintf("secret %s issued by mount instance %s, revocation arrived at instance %s (mount %q)", id, by, b.uuid, req.MountPoint))
+		} else if !fail {
 			h.revoked[id]++
 		}
 		h.mu.Unlock()
@@ -506,6 +510,10 @@ func (b *recBE) HandleRequest(ctx context.Context, req *logical.Request) (*logic
 		h.nextID++
 		id := fmt.Sprintf("sec-%d", h.nextID)
 		h.issued[id] = true
+		if h.issuedBy == nil {
+			h.issuedBy = map[string]string{}
+		}
+		h.issuedBy[id] = b.uuid
 		h.mu.Unlock()
 		ttl := time.Hour
 		if s, ok := req.Data["ttl"].(string); ok {
